@@ -340,3 +340,52 @@ func verifAssumeUniqueIn(v interface{}) {
 		}
 	}
 }
+
+// verifIrregularList builds a list of 1-2 items of mixed kinds: null, scalar,
+// object with the conventional merge key, object without it, nested list.
+func verifIrregularList(tag string, maxItems int) []interface{} {
+	n := 1
+	if maxItems > 1 {
+		n = 1 + rt.Choice(tag+".items", maxItems)
+	}
+	l := make([]interface{}, 0, n)
+	for i := 0; i < n; i++ {
+		it := tag + string(rune('0'+i))
+		switch rt.Choice(it+".kind", 5) {
+		case 0:
+			l = append(l, nil)
+		case 1:
+			l = append(l, rt.String(it+".scalar"))
+		case 2:
+			l = append(l, map[string]interface{}{"name": rt.String(it + ".name"), "v": rt.String(it + ".v")})
+		case 3:
+			l = append(l, map[string]interface{}{"other": rt.String(it + ".other")})
+		default:
+			l = append(l, []interface{}{rt.String(it + ".nested")})
+		}
+	}
+	return l
+}
+
+// VerifC05_Merge_IrregularLists: "never panics on any JSON input" for lists
+// whose items are not uniformly objects with a merge key (nulls, scalars,
+// objects without the key, nested lists, in any of the three arguments). Only
+// no-panic and value-xor-error are claimed here; the merge laws are decided on
+// the regular universes above.
+func VerifC05_Merge_IrregularLists() {
+	obs := map[string]interface{}{"a": verifIrregularList("o", 2)}
+	var last map[string]interface{}
+	if rt.Bool("l.present") {
+		// quick tier: one item in the last-applied list
+		last = map[string]interface{}{"a": verifIrregularList("l", 1+rt.Tier())}
+	}
+	des := map[string]interface{}{"a": verifIrregularList("d", 2)}
+	res, err := Merge(obs, last, des)
+	rt.Observe("err", err != nil)
+	if err != nil {
+		rt.Cover("irregular/error")
+	} else {
+		rt.Cover("irregular/merged")
+		rt.Assert(res != nil, "irregular/neither-value-nor-error")
+	}
+}
